@@ -250,12 +250,20 @@ func cutoffExplains(g *ref.Graph, doc *ref.Value) bool {
 				if fits {
 					counts[nm]++
 					if len(n.Names) > 1 && nm != n.Names[len(n.Names)-1] {
+						// an alternative that is not the last one is a place that may go: what is cut off
+						// below it makes the builder give it up and try the next one
+						f0, o0 := found, other
 						absorbers++
 						walk(t, v, false, counts, depth+1)
 						absorbers--
-					} else {
-						walk(t, v, false, counts, depth+1)
+						counts[nm]--
+						if found != f0 || other != o0 {
+							found, other = f0, o0
+							continue
+						}
+						return
 					}
+					walk(t, v, false, counts, depth+1)
 					counts[nm]--
 					return
 				}
@@ -314,24 +322,29 @@ func cutoffExplains(g *ref.Graph, doc *ref.Value) bool {
 			if v.Kind != ref.KArray {
 				return
 			}
+			minItems := 0
+			if r := n.Rule("minItems"); r != nil {
+				minItems, _ = strconv.Atoi(r.Tok)
+			}
 			for i, it := range n.Items {
 				if i >= len(v.Items) {
-					if r := n.Rule("minItems"); r != nil {
-						if k, _ := strconv.Atoi(r.Tok); k > len(v.Items) {
-							if cut(it, counts) {
-								found++
-							} else {
-								other++
-							}
+					if minItems > len(v.Items) {
+						// (since 790bd41 / the repair of round 12 an array that cannot get the items its
+						// rule asks for is given up as a whole when a place above it may go)
+						if cut(it, counts) && absorbers == 0 {
+							found++
+						} else {
+							other++
 						}
 					}
 					break
 				}
-				if n.Rule("minItems") == nil {
+				// the items beyond the ones minItems asks for may be left out
+				if i >= minItems {
 					absorbers++
 				}
 				walk(it, v.Items[i], keysOpt, counts, depth+1)
-				if n.Rule("minItems") == nil {
+				if i >= minItems {
 					absorbers--
 				}
 			}
